@@ -24,6 +24,7 @@ type pkMon struct {
 	trace    []string
 	prev     *pkSnap
 	released map[string]int // packet uid -> number of releases observed
+	escrowShort bool        // the total-escrow counter is below the escrowed balances (reported once per episode)
 }
 
 func newPkMon(h *pkH, r *Run) *pkMon { return &pkMon{h: h, r: r, released: map[string]int{}} }
@@ -207,7 +208,7 @@ func (m *pkMon) check(op, res string, cur *pkSnap) {
 	kind := f[0]
 	prop := "C05"
 	switch kind {
-	case "recv", "ack", "timeout", "fin", "finkey", "send", "fork", "epoch", "block", "state", "finstate":
+	case "recv", "ack", "timeout", "timeoutclose", "fin", "finkey", "send", "sendblk", "fork", "epoch", "block", "state", "finstate":
 		prop = "C04"
 	}
 	// a rejected message changes nothing
@@ -219,7 +220,41 @@ func (m *pkMon) check(op, res string, cur *pkSnap) {
 		}
 	}
 	if res == "hookfail" || res == "blockfail" || res == "panic" {
-		m.violate(prop+"/hook/"+kind+"-failed", fmt.Sprintf("%s: %v", res, m.h.lastErr))
+		sig := prop + "/hook/" + kind + "-failed"
+		if res == "panic" && m.h.lastErr != nil && strings.Contains(m.h.lastErr.Error(), "negative coin amount") && m.escrowShort {
+			// ibc-go's unescrowToken subtracts from the per-denom total-escrow counter with Coin.Sub: it panics
+			// when the counter is below the amount although the escrow account holds the coins
+			sig = "C04/escrow/unescrow-panics-total-escrow-counter-underflow"
+		}
+		m.violate(sig, fmt.Sprintf("%s: %v", res, m.h.lastErr))
+	}
+	m.checkTotalEscrow(op)
+
+	// ---- C04: a pending packet stays stored and pending (same key, same contents up to the beneficiary
+	// rewrite of a fulfilment) through every op except its own accepted finalization and a fork in range
+	for i := range prev.Packets {
+		q := &prev.Packets[i]
+		if !q.Pending {
+			continue
+		}
+		n := cur.packetByKey(q.Key)
+		if n != nil && n.Pending && n.Amount.Equal(q.Amount) && n.Denom == q.Denom && n.Unescrow == q.Unescrow && n.AckErr == q.AckErr &&
+			n.Type == q.Type && n.Chan == q.Chan && n.Seq == q.Seq && n.PH == q.PH && n.Ra == q.Ra && n.ErrText == q.ErrText {
+			continue
+		}
+		if (kind == "fin" || kind == "finkey") && res == "ok" {
+			if f := cur.packetByPend(q.PendKey); f != nil && !f.Pending {
+				continue // finalized by this message (checked below)
+			}
+		}
+		if kind == "fork" && res == "ok" && q.Ra == idxTok(f[1]) && q.PH > atou(kv["h"]) && q.PH < ^uint64(0) {
+			continue
+		}
+		what := "gone"
+		if n != nil {
+			what = "changed"
+		}
+		m.violate("C04/pending_retrievable/pending-packet-vanished", fmt.Sprintf("pending %s %s after `%s` -> %s", q.Name, what, op, res))
 	}
 
 	// ---- C04: status flips and immediate releases ------------------------------------------
@@ -258,7 +293,13 @@ func (m *pkMon) check(op, res string, cur *pkSnap) {
 				created = p
 			}
 		}
-		immediate := (kind == "recv" && res == "ackok") || (kind != "recv" && res == "ok" && created == nil)
+		// a packet-forward (memo fw:c<k>) that succeeds returns a nil acknowledgement: the funds were received
+		// and sent on at once, nothing is stored
+		forwarded := kind == "recv" && res == "async" && strings.HasPrefix(kv["memo"], "fw:")
+		if forwarded {
+			m.r.Hit("mon/recv-forwarded")
+		}
+		immediate := (kind == "recv" && res == "ackok") || forwarded || (kind != "recv" && res == "ok" && created == nil)
 		if immediate {
 			uid := pkUID(typ, ci, seq)
 			m.released[uid]++
@@ -286,10 +327,13 @@ func (m *pkMon) check(op, res string, cur *pkSnap) {
 				}
 			}
 		}
-		if kind == "recv" && res == "async" && created == nil {
+		if kind == "recv" && res == "async" && created == nil && !forwarded {
 			m.violate("C04/pending_retrievable/async-receive-without-pending-packet", op)
 		}
-		if ri < 0 && res == "async" {
+		if kind == "recv" && forwarded && created != nil {
+			m.violate("C04/release_only_final/forwarded-receive-also-stored-as-pending", created.Name)
+		}
+		if ri < 0 && res == "async" && !forwarded {
 			m.violate("C04/non_rollapp_never_delayed/async-on-plain-channel", op)
 		}
 		if ri >= 0 && !canon && res != "ackerr" && res != "replay" && res != "badChannel" && res != "chanClosed" {
@@ -351,6 +395,28 @@ func (m *pkMon) check(op, res string, cur *pkSnap) {
 			}
 		}
 	}
+}
+
+// checkTotalEscrow: ibc-go keeps, per denom, the total amount held in ALL transfer escrow accounts
+// (TotalEscrowForDenom); unescrowing subtracts from it with Coin.Sub, which panics below zero.  The counter
+// must never be below what the escrow accounts of the harness' channels hold.
+func (m *pkMon) checkTotalEscrow(op string) {
+	app, ctx := m.h.f.App, m.h.f.Ctx
+	short := false
+	for di, d := range m.h.denoms {
+		sum := math.ZeroInt()
+		for _, c := range m.h.chans {
+			sum = sum.Add(app.BankKeeper.GetBalance(ctx, transfertypes.GetEscrowAddress(pkPort, c.Hub), d).Amount)
+		}
+		if tot := app.TransferKeeper.GetTotalEscrowForDenom(ctx, d).Amount; tot.LT(sum) {
+			short = true
+			if !m.escrowShort {
+				m.violate("C04/escrow/total-escrow-counter-below-escrowed-balance",
+					fmt.Sprintf("after `%s`: TotalEscrowForDenom(d%d) = %s, the channel escrow accounts hold %s", op, di, tot, sum))
+			}
+		}
+	}
+	m.escrowShort = short
 }
 
 // checkFork: what OnHardFork(rollapp ri, lastValid lv) must have done to packets, receipts,
@@ -480,10 +546,47 @@ func (m *pkMon) checkRelease(prev, cur *pkSnap, q, p *pkPacket, op string) {
 		}
 	case "A", "T":
 		refund := q.Type == "T" || q.AckErr
-		if refund && !p.Failed {
+		if in, fwd := m.h.fwdOf[[2]uint64{uint64(q.Chan), q.Seq}]; fwd {
+			// the hub sent this packet as a packet-forward of the packet received on channel in[0]: the
+			// packet-forward middleware settles it towards the ORIGIN chain (escrow -> inbound channel's
+			// escrow, or burn / mint for vouchers) and acknowledges the inbound packet
+			m.r.Hit("mon/finalized-forwarded-packet")
+			if refund && !p.Failed {
+				resc := "e" + strconv.Itoa(int(in[0]))
+				if q.Unescrow {
+					addDelta(want, esc, q.Denom, q.Amount.Neg())
+					if q.Denom != 1+int(in[0]) {
+						addDelta(want, resc, q.Denom, q.Amount)
+					}
+				} else {
+					addDelta(want, resc, q.Denom, q.Amount)
+				}
+				if q.Orig != "-" {
+					// C05: "when the packet later finalizes the whole packet amount goes to the fulfiller"
+					if d := cur.Bal[benef][q.Denom].Sub(prev.Bal[benef][q.Denom]); !d.Equal(q.Amount) {
+						m.violate("C05/finalize_pays_fulfiller/fulfiller-not-paid-on-finalization/forwarded-packet",
+							fmt.Sprintf("%s: the order of this forwarded packet was fulfilled by %s (paid to the packet-forward intermediate address %s); its finalization credited the fulfiller %s instead of %s: the refund went towards the origin chain (channel c%d)",
+								q.Name, benef, q.Orig, d, q.Amount, in[0]))
+					}
+				}
+			}
+			if !p.Failed {
+				want0 := fmt.Sprintf("c%d.%d.%s", in[0], in[1], b2s(!refund))
+				found := false
+				for _, a := range cur.Ak {
+					found = found || a == want0
+				}
+				if !found {
+					m.violate("C04/release_exact/forwarded-packet-finalized-without-acknowledging-the-inbound-packet", q.Name+" expected ack "+want0)
+				}
+			}
+		} else if refund && !p.Failed {
 			addDelta(want, benef, q.Denom, q.Amount)
 			if q.Unescrow {
 				addDelta(want, esc, q.Denom, q.Amount.Neg())
+			}
+			if q.Orig != "-" {
+				m.r.Hit("mon/finalize-paid-fulfiller")
 			}
 		}
 		if p.Failed {
